@@ -23,6 +23,8 @@ import Driver.FormCmd
       obj                        get_objective_data()
       con                        get_constraint_data()
       qubo <feas 0/1> <rho|none> get_qubo(feasibility, penalty_parameter)
+      dec <k> x1 … xk            get_routes([x1, …, xk])    (a QUERY; the vector is a length-prefixed list of rationals,
+                                                            the selected indices are the positions with xk ≠ 0)
       heur <high>                make_feasible(high)
 
   and the public MUTATORS (each runs the hook `_problem_changed()` first, i.e. unsets all flags, also when it raises):
@@ -66,6 +68,13 @@ Digests (all lists length-prefixed: `<k> x1 … xk`; a COO triple is `row col va
     qubo ok <n> <rho> <k> <sum of all entries of Q>    (`rho` = penalty weight used, `k` = constant)
     qubo err:shape | qubo err:assert
     con err:assert                                     seq only: a consistency assertion of build_quadratic_constraints
+    routes <k> <route>*k                               `get_routes` returned: length-prefixed list of routes;
+                                                       seq `<route>` = `<m> n1 … nm` (node positions of one vehicle),
+                                                       arc `<route>` = `<m> {node time}*m` (the stops of one route)
+    routes <err>                                       `get_routes` raised: arc `err:type` (nothing selected, or an index
+                                                       beyond the variables) / `err:assert` (window or visit-count
+                                                       assertion); seq `err:type` (index beyond the variables) /
+                                                       `err:index` (`pop(0)` from an exhausted tuple list)
     heur ok
     heur raised <err>                                  <err> ∈ err:value err:index err:assert err:type err:shape
     done                                               normal return of a void mutator
@@ -92,6 +101,7 @@ def pArcFOp : P ArcFOp := do
   | "con" => pure .constraints
   | "qubo" => do let f ← pBool; let r ← pRho; pure (.qubo f r)
   | "heur" => do let h ← pRat; pure (.heur h)
+  | "dec" => do let x ← pList pRat; pure (.decode x)
   | "tp" => do let pts ← pList pRat; pure (.addTimePoints pts)
   | "addarc" => do let o ← tok; let d ← tok; let tm ← pRat; let c ← pRat; pure (.addArc o d tm c)
   | "addnode" => do let nm ← tok; let d ← pRat; let lo ← pRat; let hi ← pERat; pure (.addNode nm d lo hi)
@@ -110,6 +120,7 @@ def pSeqFOp : P SeqFOp := do
   | "con" => pure .constraints
   | "qubo" => do let f ← pBool; let r ← pRho; pure (.qubo f r)
   | "heur" => do let h ← pRat; pure (.heur h)
+  | "dec" => do let x ← pList pRat; pure (.decode x)
   | "setV" => do let v ← pNat; pure (.setMaxVehicles v)
   | "setL" => do let l ← pNat; pure (.setMaxSeqLen l)
   | "addarc" => do let o ← tok; let d ← tok; let tm ← pRat; let c ← pRat; pure (.addArc o d tm c)
@@ -118,6 +129,9 @@ def pSeqFOp : P SeqFOp := do
   | "setcap" => do let c ← pRat; pure (.setVehicleCap c)
   | "setinit" => do let l ← pRat; pure (.setInitialLoading l)
   | _ => throw s!"bad flags op {t}"
+
+/-- one stop `node time` of an arc route -/
+def showStop (e : Nat × Rat) : String := s!"{e.1} {showRat e.2}"
 
 /-- digest of a reply; `op` disambiguates what raised -/
 def showArcReply (op : ArcFOp) (r : ArcReply) : String :=
@@ -128,6 +142,7 @@ def showArcReply (op : ArcFOp) (r : ArcReply) : String :=
   | .obj c n => s!"obj {showRats c} ; {n}"
   | .con A sh b n => s!"con {showList showTriple A} ; {showRats b} ; {sh.1} {sh.2} {n}"
   | .qubo q => showQuboOut q
+  | .routesA r => s!"routes {showList (showList showStop) r}"
   | .done =>
     match op with
     | .heur _ => "heur ok"
@@ -138,6 +153,7 @@ def showArcReply (op : ArcFOp) (r : ArcReply) : String :=
     | .heur _ => s!"heur raised {showErr e}"
     | .qubo _ _ => s!"qubo {showErr e}"
     | .constraints => s!"con {showErr e}"
+    | .decode _ => s!"routes {showErr e}"
     | _ => s!"raised {showErr e}"
 
 def showSeqReply (op : SeqFOp) (r : SeqReply) : String :=
@@ -148,6 +164,7 @@ def showSeqReply (op : SeqFOp) (r : SeqReply) : String :=
   | .obj c Q n => s!"obj {showRats c} ; {showList showTriple Q} ; {n}"
   | .con A sh b R n => s!"con {showList showTriple A} ; {showRats b} ; {showList showPair R} ; {sh.1} {sh.2} {n}"
   | .qubo q => showQuboOut q
+  | .routesS r => s!"routes {showList (showList toString) r}"
   | .done =>
     match op with
     | .heur _ => "heur ok"
@@ -158,6 +175,7 @@ def showSeqReply (op : SeqFOp) (r : SeqReply) : String :=
     | .heur _ => s!"heur raised {showErr e}"
     | .qubo _ _ => s!"qubo {showErr e}"
     | .constraints => s!"con {showErr e}"
+    | .decode _ => s!"routes {showErr e}"
     | _ => s!"raised {showErr e}"
 
 def arcFlags (o : ArcObj) : String :=
